@@ -166,6 +166,32 @@ func (d *GoodDir) ReadDir(n int) ([]string, error) {
 	if n > 0 && start+n < end {
 		end = start + n
 	}
+	d.offset += end - start
+	return d.names[start:end], nil
+}
+
+// PulledDir is GoodDir with "cursor = end of the window": right while the cursor lies inside the listing, and pulls a
+// cursor that lies beyond the end back to the length (R16.12).
+type PulledDir struct {
+	names  []string
+	offset int
+}
+
+func (d *PulledDir) Read([]byte) (int, error)   { return 0, io.EOF }
+func (d *PulledDir) Close() error               { return nil }
+func (d *PulledDir) Stat() (fs.FileInfo, error) { return nil, nil }
+func (d *PulledDir) ReadDir(n int) ([]string, error) {
+	if n > 0 && d.offset >= len(d.names) {
+		return nil, io.EOF
+	}
+	start := d.offset
+	if start > len(d.names) {
+		start = len(d.names)
+	}
+	end := len(d.names)
+	if n > 0 && n < end-start {
+		end = start + n
+	}
 	d.offset = end
 	return d.names[start:end], nil
 }
@@ -429,4 +455,50 @@ func (t *Table) BadLeak(k string) error {
 	t.m[k] = true
 	t.mu.Unlock()
 	return nil
+}
+
+// ---- walkloop: every iteration of a collecting loop records its element (R20.16)
+
+func GoodWalk(seen map[string]int, names []string, size func(string) (int, error)) {
+	for _, n := range names {
+		sz, err := size(n)
+		if err != nil {
+			sz = -1
+		}
+		seen[n] = sz
+	}
+}
+
+func BadWalk(seen map[string]int, names []string, size func(string) (int, error)) {
+	for _, n := range names {
+		sz, err := size(n)
+		if err != nil {
+			continue // the element is never recorded
+		}
+		seen[n] = sz
+	}
+}
+
+// ---- rangecb: a sync.Map Range callback collects by append, not by index into a slice sized earlier (R15.15)
+
+func GoodRange(m *sync.Map) []string {
+	var names []string
+	m.Range(func(k, _ interface{}) bool {
+		names = append(names, k.(string))
+		return true
+	})
+	return names
+}
+
+func BadRange(m *sync.Map) []string {
+	count := 0
+	m.Range(func(_, _ interface{}) bool { count++; return true })
+	names := make([]string, count)
+	i := 0
+	m.Range(func(k, _ interface{}) bool {
+		names[i] = k.(string)
+		i++
+		return true
+	})
+	return names
 }
